@@ -57,12 +57,16 @@ def job(spec):
     top = {1: 2, 2: 4, 4: 16, 8: 256, 32: spec.get("top32", 4096)}[nbits]
     if spec["data"] == "identity":
         data = (np.arange(n * c, dtype=np.int64) % top).reshape(n, c)
+    elif spec["data"] == "runs":      # runs of all-zero samples between non-zero ones: whole gulps of zeros, ties with a zero running mean
+        r = int(rng.integers(1, 4))
+        data = rng.integers(1, max(2, top), size=(n, c), dtype=np.int64)
+        data[(np.arange(n) // r) % 2 == 1] = 0
     else:
         data = rng.integers(0, top, size=(n, c), dtype=np.int64)
     if nbits == 32:
         data = data - top // 2          # float samples are signed: sums, means and extrema of either sign
     band = dict(BAND, fch1=float(max(8, c + 4)))     # every channel frequency >= 5 MHz
-    names = fixtures.write_set(d, f"c06_{spec['id']}", data, nbits, spec["split"], **band)
+    names = fixtures.write_set(d, f"c06_{spec['id']}", data, nbits, spec["split"], longname=(spec["id"] % 3 == 1), **band)
     files = [list(open(f, "rb").read()[-(k * c * nbits // 8):]) if k else [] for f, k in zip(names, spec["split"])]
     hdr = {"files": files, "nbits": nbits, "nchans": c, "vals": [int(x) for x in data.ravel()], "N": n}
     ev = []
@@ -174,7 +178,7 @@ def run(v) -> None:
         per = 40
         allc = calls_for(n, c, gulps, ranges, ops)
         for j in range(0, len(allc), per * 6):
-            add_spec(n, c, nbits, 1 + (j // (per * 6)) % 3, "identity" if (j // per) % 2 else "random", allc[j:j + per * 6])
+            add_spec(n, c, nbits, 1 + (j // (per * 6)) % 3, ("identity", "random", "runs")[(j // per) % 3], allc[j:j + per * 6])
     # random larger configurations at every depth
     for _ in range(40 if quick else 1500):
         nbits = rng.choice([1, 2, 4, 8, 32])
@@ -186,7 +190,7 @@ def run(v) -> None:
             nsamps = rng.randrange(1, n - start + 1)
             gulp = rng.choice([1, 2, 3, 5, 7, rng.randrange(1, n + 2), nsamps, nsamps + 3])
             calls += calls_for(n, c, [gulp], [(start, nsamps)], ops)
-        add_spec(n, c, nbits, rng.choice([1, 2, 3]), rng.choice(["identity", "random"]), calls)
+        add_spec(n, c, nbits, rng.choice([1, 2, 3]), rng.choice(["identity", "random", "runs"]), calls)
     traces = pool.pmap(job, specs, workers=14)
     # dedispersion calls whose max delay >= nsamps are outside the property: drop them (count as precondition-false)
     skipped = 0
